@@ -480,7 +480,8 @@ def _check_attrs(case, g, k=1.0, Q=None):
         return bad
     # stored points: the specification's wrapped points; a point exactly on a cell face
     # (fractional numerator 0) may appear on the opposite face (+ a_j), see module docstring
-    K = (P - WP) @ G.T
+    # (base presentation: integer arithmetic as before, K must be integers exactly)
+    K = (P - WP) @ H.T / D if exact else (P - WP) @ G.T
     K0 = np.rint(K)
     _DEV[0] = max(_DEV[0], float(np.max(np.abs(K - K0))) if not exact else 0.0)
     ok = (np.max(np.abs(K - K0)) <= tol and np.max(np.abs(K0 @ A - (P - WP))) <= tol
